@@ -41,10 +41,22 @@ impl AMeth {
 
 pub fn g_mref(m: &MRef) -> String { format!("({}, ({}, {}))", gstr(&m.class), gstr(&m.name), gstr(&m.desc)) }
 pub fn g_pairs(v: &[(MRef, MRef)]) -> String { glist(v.iter().map(|(a, b)| gpair(g_mref(a), g_mref(b)))) }
+/// one invoke instruction as a term of the model's `insn`
+fn g_insn(c: &Call) -> String {
+	match c.kind {
+		CallKind::Virtual => format!("IVirtual {}", g_mref(&c.target)),
+		CallKind::Special => format!("ISpecial {} {}", g_mref(&c.target), gbool(c.iface_ref)),
+		CallKind::Static => format!("IStatic {} {}", g_mref(&c.target), gbool(c.iface_ref)),
+		CallKind::Interface => format!("IInterface {}", g_mref(&c.target)),
+		CallKind::Dynamic => format!("IDynamic {} {}", gstr(&c.target.name), gstr(&c.target.desc)),
+	}
+}
+/// The body as the model's instruction list: every invoke instruction (invokedynamic included) in order, with `IOther`
+/// (a possibly empty run of other instructions: loads, casts, noise, pop, return) before each of them and at the end.
 fn g_meth(m: &AMeth) -> String {
 	format!("(mkJM {} {} (mkAcc {} {} {} {} {}) {})", gstr(&m.name), gstr(&m.desc),
 		gbool(m.is(ACC_PRIVATE)), gbool(m.is(ACC_STATIC)), gbool(m.is(ACC_FINAL)), gbool(m.is(ACC_BRIDGE)), gbool(m.is(ACC_SYNTHETIC)),
-		gopt(m.calls.as_ref().map(|cs| glist(cs.iter().filter(|c| c.kind != CallKind::Dynamic).map(|c| g_mref(&c.target))))))
+		gopt(m.calls.as_ref().map(|cs| glist(cs.iter().flat_map(|c| ["IOther".to_string(), g_insn(c)]).chain(std::iter::once("IOther".to_string()))))))
 }
 pub fn g_class(c: &AClass) -> String {
 	format!("(mkJC {} {} {} {})", gstr(&c.name), gopt(c.super_class.as_ref().map(|s| gstr(s))), glist(c.interfaces.iter().map(|s| gstr(s))), glist(c.methods.iter().map(g_meth)))
